@@ -113,6 +113,9 @@ NASTY_UNITS = ['\\"', "\\\\", "#", ";", "{", "}", "\n", "\\n", "\\x41", "\\u0041
 
 
 def gen_literal(rng, nasty=0.35) -> str:
+    if rng.random() < 0.06:
+        # words that mean something to some consumer of the tree (as_dict treats the variant "default" specially, …)
+        return rng.choice(['"default"', '"default"', '"Default"', '"default "', '"true"', '"false"', '"None"', '""'])
     n = rng.choice([0, 1, 1, 2, 3, 5, 8, 13])
     body = []
     for _ in range(n):
